@@ -17,8 +17,10 @@ IMPLEMENTATION-SHAPED MODELS, one per store, mirroring the Go code AS IT IS (qui
           inverse `aliasToIndexNames[org][alias] = set of indexes` (`putAliasToIndexInMem` :570);
           `AddAliases` :395, `RemoveAliases` :629, `GetAllAliasesAsMapArray` :435, `IsAlias` :619,
           `initializeAliasToIndexMap` :531 (restart).  The model follows the code WITH patches c20-1 (the
-          top-level files = org 0 are read at restart) and c20-2 (an emptied inner map is dropped); the
-          behaviour before them is kept as `rebuildOld` / `removeMemOld` / `stepOld`.
+          top-level files = org 0 are read at restart), c20-2 (an emptied inner map is dropped) and c20-9
+          (`FlushAliasMapToFile` :605, run at graceful shutdown, adds the pairs of the memory map that an
+          index' alias file lacks — before, it wrote files named like the ALIAS holding the INDEX names); the
+          behaviour before them is kept as `rebuildOld` / `removeMemOld` / `stepOld`, `flushOld` / `stepOldFlush`.
 
 Keys are byte strings (`List Nat`); values are opaque.  Core Lean only (linked into the oracle).
 -/
@@ -239,6 +241,7 @@ inductive Op where
   | list (t : Nat)                 -- GetAllAliasesAsMapArray(org)
   | resolve (t : Nat) (a : Key)    -- IsAlias(alias, org)
   | restart                        -- new process + initializeAliasToIndexMap
+  | graceful                       -- graceful shutdown (FlushAliasMapToFile) + new process
   deriving DecidableEq
 
 inductive Out where
@@ -247,6 +250,7 @@ inductive Out where
   | amap (l : List (Key × List Key))       -- list: alias ↦ indexes
   | target (l : List Key)                  -- resolve: [] = not an alias, else the candidate indexes (the code returns one of them)
   | restarted
+  | gracefulRestarted
   deriving DecidableEq
 
 def init : St := { files := [], mem := [] }
@@ -263,6 +267,23 @@ def rebuild (files : AL (Nat × Key) (List Key)) : AL (Nat × Key) (List Key) :=
 /-- before patch c20-1: only the org DIRECTORIES were walked — the alias files of org 0 were never read -/
 def rebuildOld (files : AL (Nat × Key) (List Key)) : AL (Nat × Key) (List Key) :=
   files.foldl (fun m e => if e.1.1 = 0 then m else e.2.foldl (fun m a => putMem m e.1.1 a e.1.2) m) []
+
+/-- `FlushAliasMapToFile` (patch c20-9), one pair of the memory map: the alias is added to the alias file of
+its index unless it is already there (`GetAliases` refuses an invalid index name: nothing is written) -/
+def flushOne (files : AL (Nat × Key) (List Key)) (t : Nat) (a i : Key) : AL (Nat × Key) (List Key) :=
+  let cur := (files.get (t, i)).getD []
+  if a ∈ cur then files else
+  if !validIndex i then files else files.put (t, i) (insSet cur a)
+
+/-- `FlushAliasMapToFile` at graceful shutdown: every (alias, index) pair of the memory map -/
+def flush (files mem : AL (Nat × Key) (List Key)) : AL (Nat × Key) (List Key) :=
+  mem.foldl (fun f e => e.2.foldl (fun f i => flushOne f e.1.1 e.1.2 i) f) files
+
+/-- before patch c20-9: `writeAliasFile(&alias, indexNames, org)` — a file NAMED like the alias holding the
+INDEX names, i.e. the relation inverted; it is read back as an index' alias file at the next start
+(alias names that are no file names are not modelled here) -/
+def flushOld (files mem : AL (Nat × Key) (List Key)) : AL (Nat × Key) (List Key) :=
+  mem.foldl (fun f e => f.put e.1 e.2) files
 
 /-- `RemoveAliases`, file side: rewrite the index' alias file, or remove it when no alias is left
 (`os.Remove` fails when there was no file) -/
@@ -300,6 +321,13 @@ def step (st : St) : Op → St × Out
   | .list t => (st, .amap ((st.mem.filter (fun e => e.1.1 = t)).map (fun e => (e.1.2, e.2))))
   | .resolve t a => (st, .target ((st.mem.get (t, a)).getD []))
   | .restart => ({ st with mem := rebuild st.files }, .restarted)
+  | .graceful => ({ files := flush st.files st.mem, mem := rebuild (flush st.files st.mem) }, .gracefulRestarted)
+
+/-- the behaviour before patch c20-9 (with c20-1 / c20-2 in place): the shutdown flush wrote the inverted
+relation -/
+def stepOldFlush (st : St) : Op → St × Out
+  | .graceful => ({ files := flushOld st.files st.mem, mem := rebuild (flushOld st.files st.mem) }, .gracefulRestarted)
+  | op => step st op
 
 /-- the behaviour before patches c20-1 / c20-2 (kept for the counterexample theorems) -/
 def stepOld (st : St) : Op → St × Out
@@ -335,6 +363,7 @@ def OutOk (s : Spec Nat Key (List Key)) : Op → Out → Prop
     (∀ a i, a ≠ [] → Spec.has s t i a → ∃ is, (a, is) ∈ l)
   | .resolve t a, .target l => ∀ i, i ∈ l ↔ (a ≠ [] ∧ Spec.has s t i a)
   | .restart, o => o = .restarted
+  | .graceful, o => o = .gracefulRestarted
   | _, _ => False
 
 def run (st : St) : List Op → St × List Out
@@ -346,7 +375,7 @@ def run (st : St) : List Op → St × List Out
 
 def Op.tenant : Op → Option Nat
   | .add t _ _ => some t | .remove t _ _ => some t | .get t _ => some t | .list t => some t
-  | .resolve t _ => some t | .restart => none
+  | .resolve t _ => some t | .restart => none | .graceful => none
 
 /-- REFINEMENT along an operation sequence -/
 def Refines : Spec Nat Key (List Key) → St → List Op → Prop
@@ -354,22 +383,17 @@ def Refines : Spec Nat Key (List Key) → St → List Op → Prop
   | s, st, op :: r =>
     OutOk s op (step st op).2 ∧ abs (step st op).1 = specStep s op ∧ Refines (specStep s op) (step st op).1 r
 
-/-- the same, but the answers of the two reads that come from the in-memory map (list, resolve) are
-not looked at -/
-def RefinesFiles : Spec Nat Key (List Key) → St → List Op → Prop
-  | _, _, [] => True
-  | s, st, op :: r =>
-    ((∀ t, op ≠ .list t) → (∀ t a, op ≠ .resolve t a) → OutOk s op (step st op).2) ∧
-    abs (step st op).1 = specStep s op ∧ RefinesFiles (specStep s op) (step st op).1 r
-
 /-- memory view: index `i` is listed under alias `a` of tenant `t` in `aliasToIndexNames` -/
 def memView (st : St) (t : Nat) (a i : Key) : Prop := i ∈ (st.mem.get (t, a)).getD []
 
-/-- refinement statement for the OLD behaviour -/
-def RefinesOld : Spec Nat Key (List Key) → St → List Op → Prop
+/-- refinement statement for an OLD behaviour `stp` -/
+def RefinesWith (stp : St → Op → St × Out) : Spec Nat Key (List Key) → St → List Op → Prop
   | _, _, [] => True
   | s, st, op :: r =>
-    OutOk s op (stepOld st op).2 ∧ abs (stepOld st op).1 = specStep s op ∧ RefinesOld (specStep s op) (stepOld st op).1 r
+    OutOk s op (stp st op).2 ∧ abs (stp st op).1 = specStep s op ∧ RefinesWith stp (specStep s op) (stp st op).1 r
+
+abbrev RefinesOld := RefinesWith stepOld
+abbrev RefinesOldFlush := RefinesWith stepOldFlush
 
 def runOld (st : St) : List Op → St × List Out
   | [] => (st, [])
